@@ -1,6 +1,8 @@
 package ocr2keepers
 
 import (
+	stdjson "encoding/json"
+	"errors"
 	"fmt"
 	"math/big"
 
@@ -48,7 +50,7 @@ func (observation AutomationObservation) Encode() ([]byte, error) {
 
 func DecodeAutomationObservation(data []byte, utg types.UpkeepTypeGetter, wg types.WorkIDGenerator) (AutomationObservation, error) {
 	ao := AutomationObservation{}
-	err := json.Unmarshal(data, &ao)
+	err := unmarshalPeerMessage(data, &ao)
 	if err != nil {
 		return AutomationObservation{}, err
 	}
@@ -181,4 +183,21 @@ func validateTriggerExtensionType(t ocr2keepers.Trigger, ut types.UpkeepType) er
 		}
 	}
 	return nil
+}
+
+// errEmptyMessage is returned for an empty observation or outcome
+var errEmptyMessage = errors.New("invalid character '\x00' looking for beginning of value")
+
+// unmarshalPeerMessage decodes bytes received from a peer. The standard
+// library decoder is used on this path: goccy/go-json zero-fills a JSON array
+// that is shorter than its fixed-size Go target with word-sized stores, which
+// for the [32]byte identifiers and hashes of proposals and block keys writes
+// past the end of the array - a crafted observation corrupted neighbouring
+// fields and could crash the process. Encoding keeps using goccy/go-json, so
+// the bytes produced are unchanged.
+func unmarshalPeerMessage(data []byte, v interface{}) error {
+	if len(data) == 0 {
+		return errEmptyMessage
+	}
+	return stdjson.Unmarshal(data, v)
 }
